@@ -59,7 +59,9 @@ def ldirectory(inpath, outpath, args, scope):
                 yacc_debug=(args.debug),
                 lex_optimize=True,
                 yacc_optimize=(not args.debug),
-                scope=scope,
+                # every file starts from the included definitions only, not
+                # from what the files compiled before it left behind
+                scope=copy.deepcopy(scope),
                 tabfile=yacctab,
                 verbose=args.verbose)
             p.parse(filename=lf, debuglevel=0)
